@@ -28,6 +28,7 @@ var propPkgs = map[string][]string{
 	"C03": {"./internal/query"},
 	"C02": {"./internal/index"},
 	"C11": {"./internal/index/manager"},
+	"C05": {"./internal/index/streams"},
 	"C08": {"./internal/index/builder"},
 	"C12": {"./internal/index/manager", "./internal/index"},
 	"C13": {"./internal/index/manager"},
@@ -40,7 +41,7 @@ var propPkgs = map[string][]string{
 // propLevel: the evidence level, equal to MANIFEST level_claimed.category. C02 is mostly a bounded
 // stand-in around one proved filter, so it is not claimed at proof level.
 func propLevel(prop string) string {
-	if prop == "C02" || prop == "C06" || prop == "C04" || prop == "C13" || prop == "C12" || prop == "C16" || prop == "C08" || prop == "C19" {
+	if prop == "C02" || prop == "C06" || prop == "C04" || prop == "C13" || prop == "C12" || prop == "C16" || prop == "C08" || prop == "C19" || prop == "C05" {
 		return "other"
 	}
 	return "proof"
